@@ -239,37 +239,80 @@ func run(c *core.Ctx) {
 				continue
 			}
 			rq := rq
-			base := exec(f, rq, nil)
-			e := c.Explorer(1)
-			e.Run(func(x *explore.X, owned bool) uint64 {
-				curX = x
-				devSites = devSites[:0]
-				f2, err := execx.NewFixture(g, bridge.Options{})
-				var got string
-				if err != nil {
-					got = "schema: " + err.Error()
+			for _, withAppend := range []bool{false, true} {
+				withAppend := withAppend
+				build := func() (*execx.Fixture, error) {
+					if withAppend {
+						return appended(g)
+					}
+					return execx.NewFixture(g, bridge.Options{})
+				}
+				base := ""
+				if fb, err := build(); err != nil {
+					c.R.HarnessError("construction: %v", err)
+					return
 				} else {
-					got = exec(f2, rq, nil)
+					base = exec(fb, rq, nil)
 				}
-				curX = nil
-				dig := report.H(got)
-				if !owned {
+				e := c.Explorer(1)
+				e.Run(func(x *explore.X, owned bool) uint64 {
+					curX = x
+					devSites = devSites[:0]
+					f2, err := build()
+					var got string
+					if err != nil {
+						got = "schema: " + err.Error()
+					} else {
+						got = exec(f2, rq, nil)
+					}
+					curX = nil
+					dig := report.H(got)
+					if !owned {
+						return dig
+					}
+					c.R.Evaluations++
+					c.R.States++
+					if got != base {
+						c.Mismatch(classify(rq, base, got), "construction order "+fmt.Sprint(devSites), fmt.Sprintf("%s: a schema built (or served) under another iteration order of the map walked at %v answers %s instead of %s", rq.name, devSites, trunc(got), trunc(base)),
+							map[string]interface{}{"request": ri, "choices": x.Trace(), "construct": true, "append": withAppend})
+					}
 					return dig
+				})
+				c.Absorb(e)
+				if c.Expired() {
+					return
 				}
-				c.R.Evaluations++
-				c.R.States++
-				if got != base {
-					c.Mismatch(classify(rq, base, got), "construction order "+fmt.Sprint(devSites), fmt.Sprintf("%s: a schema built (or served) under another iteration order of the map walked at %v answers %s instead of %s", rq.name, devSites, trunc(got), trunc(base)),
-						map[string]interface{}{"request": ri, "choices": x.Trace(), "construct": true})
-				}
-				return dig
-			})
-			c.Absorb(e)
-			if c.Expired() {
-				return
 			}
 		}
 	}
+}
+
+// appended builds the kitchen schema and then appends two more implementers of its
+// interfaces (X: I; Y: I, J), the way a program extends a schema at run time.
+func appended(g *gen.Schema) (*execx.Fixture, error) {
+	ga := gen.Kitchen()
+	for n, td := range g.Types {
+		ga.Types[n] = td
+	}
+	var early []string
+	for _, n := range ga.Order {
+		if k := ga.Types[n].Kind; k == gen.KObject || k == gen.KInput || k == gen.KEnum || k == gen.KScalar {
+			early = append(early, n)
+		}
+	}
+	ga.Add(&gen.TypeDef{Kind: gen.KObject, Name: "Y", Interfaces: []string{"I", "J"}, Fields: []*gen.FieldDef{gen.F("x:String"), gen.F("y:String")}})
+	ga.Add(&gen.TypeDef{Kind: gen.KObject, Name: "X", Interfaces: []string{"I"}, Fields: []*gen.FieldDef{gen.F("x:String")}})
+	ga.Add(&gen.TypeDef{Kind: gen.KObject, Name: "B2", Interfaces: []string{"I", "J"}, Fields: []*gen.FieldDef{gen.F("x:String"), gen.F("y:String")}})
+	f, err := execx.NewFixture(ga, bridge.Options{ExtraTypes: early})
+	if err != nil {
+		return nil, err
+	}
+	for _, n := range []string{"Y", "X", "B2"} {
+		if err := f.B.Schema.AppendType(f.B.Types[n]); err != nil {
+			return nil, err
+		}
+	}
+	return f, nil
 }
 
 func classify(rq request, base, got string) string { return "" }
@@ -314,6 +357,11 @@ func replay(c *core.Ctx, p map[string]interface{}) (bool, string) {
 		choices = append(choices, int(v.(float64)))
 	}
 	base := exec(f, rq, nil)
+	if ap, _ := p["append"].(bool); ap {
+		if fa, err := appended(g); err == nil {
+			base = exec(fa, rq, nil)
+		}
+	}
 	baseVal := validation(f, rq)
 	vseam.Order = order
 	defer func() { vseam.Order = nil }()
@@ -322,6 +370,9 @@ func replay(c *core.Ctx, p map[string]interface{}) (bool, string) {
 		curX = x
 		if c, _ := p["construct"].(bool); c {
 			f2, _ := execx.NewFixture(g, bridge.Options{})
+			if ap, _ := p["append"].(bool); ap {
+				f2, _ = appended(g)
+			}
 			got = exec(f2, rq, nil)
 			gotVal = baseVal
 		} else {
